@@ -356,3 +356,51 @@ Proof.
   inversion H; subst e'. apply adjust_rejects_iff in Ea. destruct Ea as [Ea ->].
   right; right; right. repeat split; auto; [congruence|lia].
 Qed.
+
+(** * adjust_notesequence_times with a minimum duration (m <> 0): no note is
+      skipped; a collapsed note gets end = mapped start + m. *)
+Definition adj_end (f : Z -> Z) (m : Z) (n : note) : Z :=
+  if collapsed f n then f (n_end n) + m else f (n_end n).
+Definition bad_note_md (f : Z -> Z) (m : Z) (n : note) : bool :=
+  (adj_end f m n <? f (n_start n)) || (f (n_start n) <? 0) || (adj_end f m n <? 0).
+Definition adjust_rejects_md (f : Z -> Z) (m : Z) (s : seq) : bool :=
+  existsb (bad_note_md f m) (s_notes s) ||
+  (any_neg f cc_time (s_ccs s) || any_neg f pb_time (s_bends s) || any_neg f ts_time (s_tsigs s)
+   || any_neg f ks_time (s_ksigs s) || any_neg f tx_time (s_texts s) || any_neg f sa_time (s_sects s)).
+Definition note_md (f : Z -> Z) (m : Z) (n : note) : note :=
+  note_with_times n (f (n_start n)) (adj_end f m n).
+
+Lemma adjust_notes_md_ok : forall f m l acc tot sk, m <> 0 ->
+  existsb (bad_note_md f m) l = false ->
+  adjust_notes f (Some m) l acc tot sk =
+  Ok (rev acc ++ map (note_md f m) l, max_from tot (map (note_md f m) l), sk).
+Proof.
+  induction l as [|n r IH]; intros acc tot sk Hm Hb.
+  - cbn. rewrite app_nil_r. reflexivity.
+  - cbn [existsb] in Hb. apply orb_false_iff in Hb. destruct Hb as [Hn Hr].
+    cbn [adjust_notes]. unfold bad_note_md, adj_end, collapsed in Hn.
+    assert (Hnm : (m =? 0) = false) by lia. rewrite Hnm. cbn [negb]. rewrite andb_false_r.
+    apply orb_false_iff in Hn. destruct Hn as [Hn H3]. apply orb_false_iff in Hn. destruct Hn as [H1 H2].
+    rewrite H1, H2, H3.
+    rewrite IH by assumption. cbn [map rev]. rewrite <- app_assoc. cbn [app].
+    unfold max_from. cbn [fold_left]. unfold note_md at 3 5, adj_end, collapsed. cbn [n_end note_with_times].
+    reflexivity.
+Qed.
+
+Lemma adjust_md_spec : forall f m s, m <> 0 ->
+  adjust_rejects_md f m s = false ->
+  exists r, adjust f (Some m) s = Ok (r, 0) /\
+    s_notes r = map (note_md f m) (s_notes s) /\
+    s_tempos r = [] /\
+    s_tsigs r = map (tsig_t f) (s_tsigs s) /\ s_ksigs r = map (ksig_t f) (s_ksigs s) /\
+    s_texts r = map (text_t f) (s_texts s) /\ s_ccs r = map (cc_t f) (s_ccs s) /\
+    s_bends r = map (bend_t f) (s_bends s) /\ s_sects r = map (sect_t f) (s_sects s) /\
+    s_total r = max_end (s_notes r) /\ s_sub r = s_sub s /\ same_rest s r.
+Proof.
+  intros f m s Hm H. unfold adjust_rejects_md in H. apply orb_false_iff in H. destruct H as [Hn He].
+  unfold adjust. rewrite adjust_notes_md_ok by assumption. rewrite He.
+  eexists; split; [reflexivity|].
+  unfold same_rest; cbn [s_notes s_tempos s_tsigs s_ksigs s_texts s_ccs s_bends s_sects s_total s_sub
+    s_qsteps s_spq s_sps s_tpq s_rest rev app].
+  repeat split; reflexivity.
+Qed.
